@@ -11,7 +11,7 @@ import (
 // empty name, the double quote and the backslash; also "$ref" and "x-..." as names.
 var (
 	identNames   = []string{"pet", "Pet", "owner", "tag", "Tag", "thing", "PET"}
-	genLikeNames = []string{"petOwner", "PetOwner", "petOwnerOAIGen", "op0getOKBody", "op0getParamsBody", "petItems", "petAllOf1", "op0getDefaultBody"}
+	genLikeNames = []string{"petOwner", "PetOwner", "petOwnerTag", "petOwnerOAIGen", "op0getOKBody", "op0getParamsBody", "petItems", "petAllOf1", "op0getDefaultBody"}
 	keywordNames = []string{"items", "properties", "schema", "default", "200", "0", "definitions", "allOf", "additionalProperties"}
 	spaceNames   = []string{"pet owner", "é", "日本", "Tag é"}
 	ptrNames     = []string{"a/b", "til~de", "~1", "x/~y", "pet/owner", "~"}
